@@ -217,6 +217,9 @@ theorem stored_never_decreases (cfg : Cfg) (hx : cfg.ignoreExact = true) (evs : 
   case append m t => apply hif; split <;> rfl
   case appendBad => apply hif; split <;> rfl
   case foreignWrite m t => apply hif; simp
+  case foreignNames m t => apply hif; simp
+  case foreignMetric m => exact hif _ _ rfl
+  case foreignTagv m t => exact hif _ _ rfl
   case applyBegin =>
     apply hif; split
     · rfl
